@@ -62,7 +62,7 @@ CHECKS = {
                 "index tables hold the slim / native sub index; OverSamplerUniform hands its own mask, scales, sub-size map and mask origin to the kernels and returns on its mask; sub-pixel areas = area/sub^2 repeated sub^2 times; "
                 "the decorator evaluates the undecorated function on over_sampled_grid and passes the result untouched to the binning, with plain evaluation when sub-size is 1; the iterative scheme's comparator (ratio lower/higher "
                 "inverted when > 1, 0 unless lower > 0, < threshold; |difference| > tolerance; unmasked pixels only; value taken when newly resolved). Not decided: which level each pixel finally receives as a property of the "
-                "whole loop over masks, what user functions do.",
+                "whole loop over masks, what user functions do. Each accuracy test is made exactly when its own threshold is set, and the level loop is left early only when the new threshold mask is all true.",
         "note": "Trusted: Python ast, E1 resolver, numpy indexing semantics, reference forms from the property statement.",
         "technique": "static analysis: traversal typestate for slim and sub-pixel counters + polynomial-normal-form equality of stored payloads; pass-through / wiring rules on the class layer; normalised comparator structure; wiring decided on name-free path summaries (every path with its atomic conditions and the substituted value it returns)",
     },
@@ -144,7 +144,7 @@ CHECKS = {
                 "dominated by both (radius from the border centroid > smallest border radius) and (move factor = nearest-border-point radius / point radius < 1) - interior points unchanged bit-for-bit, never outward; the moved point is "
                 "factor*(p - c) + c with one centroid c (on its ray), radii and nearest point computed with both components from that same centroid (canonical-form equality); the sub-border search runs on the pixel-unit grid "
                 "(scales (1,1), origin (0,0)) from the bounding-box centre ((max+min)/2), keeps the farthest (>=) candidate among the border pixel's OWN sub-pixels, one entry per border pixel in order; entry points relocate their argument "
-                "grid against the border of the DATA grid argument at the sub-border indices (mesh vertices included). Not decided: the metric inequalities as numbers.",
+                "grid against the border of the DATA grid argument at the sub-border indices (mesh vertices included); the relocation is skipped (input handed back) exactly for an empty border, and the mesh consults the relocator exactly when one is given. Not decided: the metric inequalities as numbers.",
         "note": "Trusted: Python ast, E1 resolver, numpy mean/min/argmin/sqrt semantics (uninterpreted).",
         "technique": "static analysis: abstract evaluation to polynomial normal forms + guard dominance on the single moving store; canonical-form equality; call-site wiring rule",
     },
@@ -208,7 +208,7 @@ CHECKS = {
                 "whose k-th element is origin component k plus component-k displacements (axis purity); (covariance) for the util layer, substituting origin -> origin + d (and coordinate inputs -> inputs + d) in the computed canonical forms shifts every "
                 "coordinate output by exactly d and leaves every index output unchanged - grid from mask, over-sampled grid, scaled<->pixel conversions, Geometry2D extent / minima / maxima; (derived) mask centre, derived grids, sub-grids, mesh-pixel "
                 "counts and radial projections re-pass the parent's shape, scales and origin; geometry derived from the extrema of a coordinate grid (rectangular mesh overlay) has its centre shifted by exactly d and its size unchanged under "
-                "substitution of extrema -> extrema + d. Not decided: covariance of quantities that pass through scipy (griddata, Delaunay), numerical equality.",
+                "substitution of extrema -> extrema + d. Not decided: covariance of quantities that pass through scipy (griddata, Delaunay), numerical equality. Every sum that an `X.origin` attribute enters directly (outside the coordinate utils) counts the origin exactly +1, or -1 against a point.",
         "note": "Trusted: Python ast, E1 resolver (a call it cannot resolve to a project callable is not a G1 site; counted), reference notion of point / vector kinds.",
         "technique": "static analysis: who-passes-what rule over every resolved call of an origin-bearing callable; point / vector kind checking with axis purity; translation substitution on polynomial normal forms",
     },
